@@ -426,9 +426,9 @@ unsafe impl<E: TargetedEvent, Q: Query + 'static> HandlerParam for Receiver<'_, 
 
         let (ca, state) = Q::init(world, config)?;
 
+        config.and_targeted_event_component_access(&ca);
         config.set_received_event(event_id);
         config.set_received_event_access(Access::Read);
-        config.set_targeted_event_component_access(ca.clone());
         config.push_component_access(ca);
 
         Ok(FetcherState::new(state))
@@ -547,9 +547,9 @@ where
 
         let (ca, state) = Q::init(world, config)?;
 
+        config.and_targeted_event_component_access(&ca);
         config.set_received_event(event_id);
         config.set_received_event_access(Access::ReadWrite);
-        config.set_targeted_event_component_access(ca.clone());
         config.push_component_access(ca);
 
         Ok(FetcherState::new(state))
